@@ -163,6 +163,20 @@ PROPS = {
              "masked sums / means; permutation invariance of the symmetric ones. distinct = (function, source, len, min_periods) with a "
              "non-null result",
     ),
+    "C12": dict(
+        bin="c12",
+        quick=[("dbg", 1.0), ("rel", 1.0), ("miri", 0.6)],
+        thorough=[("dbg", 1.0), ("rel", 1.0), ("miri", 1.0), ("asan", 1.0)],
+        floors={"quantile_ok": 500, "quantile_ok_integer_index": 100, "quantile_null_ok": 20, "quantile_err_ok": 20, "percentile_ok": 500,
+                "rank_ok": 200, "partition_ok": 500, "arg_partition_ok": 500, "single_valid_not_first": 3},
+        rule="len 0..N x 10 null patterns (incl. 'the only valid element not in first position') x value classes with heavy ties + "
+             "random len<=40; vquantile over a rational q grid (0, 1, 1/2, k/(n-1) making (n-1)q an exact integer, ...) x 4 methods, "
+             "judged against the sorted valid elements with the exact rational index (either neighbour pair accepted at integer "
+             "indices, DESIGN 5.5); q outside [0,1] must be Err; vpercentile_of (3 methods, both encodings, null score); vrank (pct x rev, "
+             "3 type combos, incl. length 1); vpartition / varg_partition for k 0..=len+1 x sort x rev: exactly k+1 entries, right "
+             "multiset, order when sorted, padding only at the end, never a null. distinct = (function, encoding, len, n valid, "
+             "parameters)",
+    ),
 }
 
 for _k in list(PROPS):
